@@ -17,7 +17,10 @@ RULE = ("direct calls of the real EtherCat.roundtrip with an echo consumer "
         "an optional trailing read-only format, data in {None, bytes of "
         "length 0..40, int 0..40}, idx, position and offset; the tuple put "
         "on the queue and the value returned for a harness-chosen random "
-        "response are compared with struct.pack/unpack on the same formats. "
+        "response are compared with struct.pack/unpack on the same formats; "
+        "calls with floating-point zeros are repeated with zeros of the "
+        "other sign; groups of 2-3 requests with different formats are in "
+        "flight on one EtherCat object at once and answered in any order. "
         "a case = one call; non-trivial = at least one format or raw data")
 ASSUMPTIONS = []
 MIN_EVALUATIONS = {"quick": 5000, "thorough": 200000}
@@ -47,7 +50,8 @@ def values_for(rng, fmt):
             i += 2
             continue
         if ch in "fd":
-            out.append(rng.choice([0.5, 2.5, -1.25, 0.1, 1e-3, 3.0,
+            out.append(rng.choice([0.5, 2.5, -1.25, 0.1, 1e-3, 3.0, 0.0,
+                                   -0.0, 1.0,
                                    rng.randint(-1000, 1000) / 8]))
             i += 1
             continue
@@ -186,22 +190,139 @@ async def one(ec, case, res):
                         returned=repr(ret)))
 
 
-async def batch(cases, res):
+def prepare(case):
+    vals = dec(case)
+    args = []
+    for f, vs in zip(case["fmts"], vals):
+        args.append(f)
+        args += vs
+    if case["trailing"]:
+        args.append(case["trailing"])
+    if case["data"] is None:
+        data, raw = None, b""
+    elif case["data"][0] == "bytes":
+        data = bytes.fromhex(case["data"][1])
+        raw = data
+    else:
+        data = case["data"][1]
+        raw = bytes(data)
+    vfmt = "<" + "".join(case["fmts"])
+    want_payload = struct.pack(vfmt, *[v for vs in vals for v in vs])
+    allfmt = vfmt
+    if case["trailing"]:
+        want_payload += bytes(struct.calcsize("<" + case["trailing"]))
+        allfmt += case["trailing"]
+    return args, data, raw, want_payload + raw, allfmt
+
+
+def expected_return(case, data, allfmt, resp):
+    nfix = struct.calcsize(allfmt)
+    fields = struct.unpack(allfmt, resp[:nfix])
+    if data is None:
+        return fields
+    if case["fmts"] or case["trailing"]:
+        return fields + (resp[nfix:],)
+    return resp
+
+
+async def group(ec, cases, res, rng):
+    """2-3 requests with different formats in flight on one EtherCat object
+    at the same time, answered in any order"""
+    cases = [c for c in cases
+             if not (c["data"] is not None and (c["fmts"] or c["trailing"])
+                     and c["data"][1] in (0, ""))]   # recorded finding
+    if len(cases) < 2:
+        return
+    for k, c in enumerate(cases):
+        c["idx"] = (c["idx"] & 0xfc) | k      # tells the queued items apart
+    prep = [prepare(c) for c in cases]
+    tasks = [asyncio.ensure_future(ec.roundtrip(
+        ECCmd(c["cmd"]), c["pos"], c["off"], *p[0], data=p[1],
+        idx=c["idx"])) for c, p in zip(cases, prep)]
+    items = {}
+    for _ in cases:
+        try:
+            it = await asyncio.wait_for(ec.send_queue.get(), 1)
+        except asyncio.TimeoutError:
+            break
+        items[it[2] & 3] = it
+    res.count("concurrent_groups")
+    desc = dict(group=[dict(c) for c in cases])
+    if len(items) != len(cases):
+        for t in tasks:
+            t.cancel()
+        res.violation("unexplained:nothing-queued",
+                      f"{len(items)} of {len(cases)} concurrent requests "
+                      f"were queued", case=desc)
+        return
+    order = list(range(len(cases)))
+    rng.shuffle(order)
+    resps = {}
+    for k in order:
+        payload, future = items[k][1], items[k][5]
+        if payload != prep[k][3]:
+            res.violation("unexplained:payload",
+                          f"concurrent request {k}: payload {payload.hex()}"
+                          f" expected {prep[k][3].hex()}", case=desc)
+        rr = random.Random(cases[k]["respseed"])
+        resps[k] = bytes(rr.getrandbits(8) for _ in range(len(payload)))
+        future.set_result(resps[k])
+        if rng.random() < 0.5:
+            await asyncio.sleep(0)
+    for k, (c, p, t) in enumerate(zip(cases, prep, tasks)):
+        res.case(["concurrent", c], nontrivial=True)
+        try:
+            ret = await t
+        except Exception as ex:
+            res.violation("unexplained:roundtrip-raised",
+                          f"concurrent request {k} (formats {c['fmts']} "
+                          f"{c['trailing']}) raised {ex!r} on a well-formed "
+                          f"response", case=desc)
+            return
+        want = expected_return(c, p[1], p[4], resps[k])
+        res.count("concurrent_returns_compared")
+        if repr(ret) != repr(want):
+            res.violation("unexplained:return-value",
+                          f"concurrent request {k} of {len(cases)} (formats "
+                          f"{c['fmts']} {c['trailing']}, answered in order "
+                          f"{order}) returned {ret!r}, expected {want!r}",
+                          case=desc)
+            return
+
+
+def flip_zeros(case):
+    """the same call with every floating-point zero of the other sign"""
+    c = dict(case)
+    c["vals"] = [[(-v if isinstance(v, float) and v == 0 else v)
+                  for v in vs] for vs in case["vals"]]
+    return c
+
+
+async def batch(cases, res, rng):
     ec = EtherCat("vf")
     ec.send_queue = asyncio.Queue()
-    for c in cases:
+    for n, c in enumerate(cases):
         res.case(c, nontrivial=bool(c["fmts"] or c["trailing"]
                                     or c["data"]))
         res.count("kind[" + ("none" if c["data"] is None else c["data"][0])
                   + ("+fmt" if c["fmts"] or c["trailing"] else "") + "]")
         await one(ec, c, res)
+        if any(isinstance(v, float) and v == 0 for vs in c["vals"]
+               for v in vs):
+            # values that compare equal but encode differently
+            res.count("calls_repeated_with_zeros_of_the_other_sign")
+            await one(ec, flip_zeros(c), res)
+        if n % 5 == 0 and n + 3 < len(cases):
+            await group(ec, [dict(x) for x in
+                             cases[n + 1:n + 1 + rng.choice([2, 3])]],
+                        res, rng)
 
 
 def run_shard(params):
     res = Result()
     rng = random.Random(params["seed"] * 100207 + params["shard"])
     cases = [gen_case(rng) for _ in range(params["n"])]
-    asyncio.run(batch(cases, res))
+    asyncio.run(batch(cases, res, rng))
     return res
 
 
